@@ -46,6 +46,7 @@ def run(ctx, rep, tier):
     from . import c10, c04
     for cfg in CONFIGS:
         c10.rectification(c04._Ren(rep, 'C10.R4', 'C01.R12'), ctx.facts(cfg), '' if cfg == 'default' else '[%s]' % cfg)
+        c10.identity_init(c04._Ren(rep, 'C10.R5', 'C01.R13'), ctx.facts(cfg), '' if cfg == 'default' else '[%s]' % cfg)
     from . import primitives
     primitives.vector_primitives(rep, ctx.facts('default'), ctx.eff('default'), '', 'C01.R11')
 
